@@ -170,11 +170,11 @@ func linesProfile(thorough bool) *profile {
 	p.indents = []int{0, 1}
 	p.inline = true
 	p.brForms = []int{0, 1}
+	p.ns = []int{0, 1}
 	p.windents = 4
 	if thorough {
 		p.indents = []int{0, 1, 3, 4}
 		p.brForms = []int{0, 1, 2}
-		p.ns = []int{0, 1}
 	}
 	return p
 }
@@ -1083,8 +1083,8 @@ func init() {
 		ID: "C03", Level: "exploration",
 		Rule: "a case = (ground-truth TTML model, rendering choices) chosen by the E1 explorer. Model: title, copyright, xml:lang, frameRate, tickRate, styles with parent links over every forest on <=3 nodes, regions with optional style reference, cues (<p begin end>) with style/region references and inline tts:* attributes, lines of runs with style references and inline attributes. Rendering: each boundary in every TTML time-expression syntax that expresses the instant exactly (hh:mm:ss, .f/.ff/.fff, hh:mm:ss:ff, h, m, s, ms, f, t), <br/> between spans / inside the preceding or following span / shared span / first / last / doubled, bare character data vs <span>, indentation and layout, namespace prefix variants, <br/> form, escaping form. Enumeration: exhaustive time sweep, three core products (lines, references, attributes) and every case within B deviations of the baseline over all choice points. Read: ReadFromTTML(render(model)) must denote the model (instants exact; frames/ticks floor or nearest ns). Write: WriteToTTML(model) with each indent option must denote the model to the library reader and to an independent encoding/xml token-walk decoder. Non-trivial = non-baseline case, distinct by (model, rendering)",
 		Scope: map[core.Tier]string{
-			core.Quick:    "time sweep (every ms of [0,3 s) + tables, 10 rate pairs, all exact syntaxes) + lines core (11 line shapes x 2 texts x plain/attr x bare/span x br placement x 2 indents x layout x 2 br forms) + refs core (21 forests x <=2 regions x all style/region references) + attrs core (8 attribute subsets on style, region, p, span x 3 namespace variants) + deviation ball B=2 (<=2 cues; 24 attributes, 22 texts, 9 languages, 4 frame rates, 4 tick rates, 17+ instants)",
-			core.Thorough: "time sweep over [0,20 s) + larger cores (4 indents, 3 br forms, prefix variants, 4 write indents) + deviation ball B=3 (<=3 cues)",
+			core.Quick:    "time sweep (every ms of [0,3 s) + tables, 10 rate pairs, all exact syntaxes) + lines core (11 line shapes x 2 texts x plain/attr x bare/span x br placement x 2 indents x layout x 2 br forms x 2 prefix variants) + refs core (21 forests x <=2 regions x all style/region references) + attrs core (8 attribute subsets on style, region, p, span x 3 namespace variants) + deviation ball B=2 (<=2 cues; 24 attributes, 22 texts, 9 languages, 4 frame rates, 4 tick rates, 17+ instants)",
+			core.Thorough: "time sweep over [0,20 s) + larger cores (4 indents, 3 br forms, 4 write indents) + deviation ball B=3 (<=3 cues)",
 		},
 		Assumptions: []string{"Go toolchain and standard library (encoding/xml is used generically by the independent decoder)", "independent reference codec engine/ref/ttml",
 			"outside the denotation (the format or the property sentence does not carry them): nested spans, raw newlines in character data, white-space-only character data between spans, leading white space of bare text at the start of a paragraph or on an indented line, dur=, fractions of more than 3 digits, f/t metrics without a frame/tick rate, xml:lang values outside the five mapped languages (not compared), Metadata.Framerate, sub-millisecond instants and line terminators inside a run in the write direction"},
